@@ -66,3 +66,17 @@ def _unfold(self, args, kwargs, fr, node):
     inst = z3.substitute(body, *zip(consts, ts))
     self.ex.assume(f(*ts) == inst)
     return True
+
+
+@function_model('pyvc.contracts.the')
+def _the(self, args, kwargs, fr, node):
+    from .classtable import TOpt
+    v = args[0]
+    if isinstance(v, SV) and isinstance(v.ty, TOpt):
+        isnone = self.ct.opt_is_none(v.ty.elem, v.term)
+        if self.ex.branch(isnone, 'the(None)'):
+            self.raise_exc(AssertionError, 'the(None)', fr, node)
+        return SV(self.ct.opt_the(v.ty.elem, v.term), v.ty.elem, oid=v.oid, fresh=v.fresh)
+    if v is None:
+        self.raise_exc(AssertionError, 'the(None)', fr, node)
+    return v
